@@ -54,7 +54,7 @@ CLAIMED = {
  "C08": ("Coq proof (field/lra over Q): Cohen-Sutherland invariant, termination measure, exact result; Fractions correspondence; floats judged by a sandwich checker",
          "Theorems C08_result, C08_accept_iff, C08_no_div0, C08_measure, C08_reference_interval, C08_judgement_reject, C08_judgement_accept: for all rational segments and rectangles (min<=max) the model of clip_segment accepts iff some point of the segment is inside, "
          "returns seg(t1), seg(t2) with 0<=t1<=t2<=1 covering every inside parameter, never divides by zero, never reaches the failsafe (each clip lowers the number of violated sides). "
-         "The code runs unchanged on Fractions and is compared exactly; float runs are judged in exact arithmetic with eps = 1e-9 x scale. clip_code is re-translated from the source on every run (py2v) and proved equal to the model's region flags.",
+         "The code runs unchanged on Fractions and is compared exactly; float runs are judged in exact arithmetic with eps = 1e-9 x scale. clip_code is re-translated from the source on every run (py2v) and proved equal to the model's region flags. The tolerant judgement of float runs is proved sound (C08_reference_interval, C08_judgement_reject / accept / covers: every point of the input inside the eps-deflated rectangle is within eps of the returned segment).",
          NOTE_COMMON + "Float rounding staying inside the tolerance is sampled, not proved; the reference interval of the sandwich checker is proved to be the exact inside part (C08_reference_interval); and what a passing rejection / acceptance certifies is proved (C08_judgement_reject / _accept); the orientation and coverage clauses of the judgement are as written in Corr/C08.v.", "DESIGN.md section 5, C08"),
  "C09": ("Coq proof: predicate = true point-segment distance (nra over Q), reduction relation by induction on the nested loops; Fractions correspondence with object identity",
          "Theorems C09_predicate_is_distance, C09_points_in_tolerance, C09_reduction, C09_subsequence, C09_unchanged: the fast predicate accepts a point iff some point of the chord is strictly "
@@ -69,7 +69,7 @@ CLAIMED = {
  "C11": ("Coq proof (field/lra over Q) of the SVG equations for the numeric core + general parse theorem over all spellings + bit-exact float correspondence",
          "Theorem C11_core: for all positive sizes and every alignment x meet/slice the exact-layer result satisfies the SVG 1.1 preserveAspectRatio equations; C11_valid ties the "
          "string layer to the core; C11_parse_general: for every letter-case variant of defer / the ten alignments / meet / slice and every run of white space and commas between and around them the parser extracts exactly the alignment and the keyword (C11_tokens: the tokeniser on any sentence of words); C11_parse_sweep additionally decides 8100 spellings in the kernel; identity and no-raise theorems. The same model with round-to-nearest-even "
-         "after every operation is compared bit for bit with plot_utils.vb_scale, and outputs are judged against the exact answer within 1e-9.",
+         "after every operation is compared bit for bit with plot_utils.vb_scale, and outputs are judged against the exact answer within 1e-9; non-positive and malformed sizes are also run under python -O; viewBox values that float() reads beyond the SVG numeral grammar must give the identity (defect repaired in /repo 385a4fc).",
          NOTE_COMMON + "Float rounding is modelled by Base/Rnd.v (executed, not proved equal to IEEE 754); CPython float(str) assumed correctly rounded.",
          "DESIGN.md section 5, C11"),
  "C12": ("Coq proof: one factor table, round trips, parser theorem over all numerals/whitespace + bit-exact float correspondence",
@@ -120,7 +120,7 @@ CLAIMED = {
  "C20": ("Coq proof: escape = per-character map, decode round trip, hms arithmetic + correspondence incl. lxml as reference parser",
          "Theorems: xml_escape is a per-character map, leaves no raw special, every & starts an entity, and an XML parser (Spec/Xml.v, validated against lxml each run) reads the escaped text "
          "back as the original in content (no CR) and in attributes (no TAB/LF/CR); the statement without those side conditions is refuted (known finding C20-D10). format_hms: for every "
-         "rational d >= 10 the fields encode round-half-even(d) with minutes/seconds in 0..59 and the form chosen by the rounded value.",
+         "rational d >= 10 the fields encode round-half-even(d) with minutes/seconds in 0..59 and the form chosen by the rounded value; C20_render_reads_back / C20_hms_text_long: the characters printed decode (split at the first blank, '.', ':') to exactly those fields.",
          NOTE_COMMON + "lxml/libxml2 is the reference parser; CPython round()/'%.3f' assumed correctly rounded.",
          "DESIGN.md section 5, C20"),
 }
